@@ -58,18 +58,19 @@ type c15Watch struct {
 }
 
 type c15Etcd struct {
-	mu       sync.Mutex
-	base     int64            // revision of the empty store
-	conn     *grpc.ClientConn // what ActiveConnection returns (real-connection family only)
-	cond     *sync.Cond       // signalled on log growth / abandon / stop (concurrent workload)
-	store    map[string]string
-	lease    map[string]clientv3.LeaseID
-	log      []c15Ev
-	watches  []*c15Watch
-	gets     int
-	getFails int
-	failGets int    // number of upcoming Get calls that fail
-	failPub  string // "grant" | "put" | "keepalive": the next such publisher call fails once
+	mu          sync.Mutex
+	base        int64            // revision of the empty store
+	conn        *grpc.ClientConn // what ActiveConnection returns (real-connection family only)
+	cond        *sync.Cond       // signalled on log growth / abandon / stop (concurrent workload)
+	store       map[string]string
+	lease       map[string]clientv3.LeaseID
+	log         []c15Ev
+	watches     []*c15Watch
+	gets        int
+	getFails    int
+	failGets    int    // number of upcoming Get calls that fail
+	deadCtxGets int    // Gets that arrived with an already expired context while the store was healthy
+	failPub     string // "grant" | "put" | "keepalive": the next such publisher call fails once
 
 	// gap: changes applied right after the next Get has taken its snapshot (they land
 	// between the snapshot and the Watch registration that follows it)
@@ -179,6 +180,12 @@ func (e *c15Etcd) snapshot(svc string) map[string]string {
 	return out
 }
 
+func (e *c15Etcd) deadGets() int {
+	e.mu.Lock()
+	defer e.mu.Unlock()
+	return e.deadCtxGets
+}
+
 func (e *c15Etcd) counters() (gets, getFails, watches, revokes int) {
 	e.mu.Lock()
 	defer e.mu.Unlock()
@@ -208,6 +215,12 @@ func (e *c15Etcd) Get(ctx context.Context, key string, opts ...clientv3.OpOption
 		e.failGets--
 		e.getFails++
 		return nil, errors.New("c15: injected etcd Get failure")
+	}
+	if err := ctx.Err(); err != nil {
+		// the request arrives with a context that has already expired / been cancelled: a
+		// real client fails it without asking the server
+		e.deadCtxGets++
+		return nil, err
 	}
 	var keys []string
 	for k := range e.store {
